@@ -13,11 +13,13 @@ import (
 	"bufio"
 	"bytes"
 	"context"
+	"crypto"
 	"crypto/x509"
 	"encoding/json"
 	"encoding/pem"
 	"errors"
 	"fmt"
+	"math/big"
 	"os"
 	"os/exec"
 	"path/filepath"
@@ -498,6 +500,69 @@ func child(batch int, seed int64, tier, outDir string) {
 						}
 					}
 					_ = pi
+				}
+			}
+		}
+	}
+
+	// ---- well-formed but unusual RFC 3161 tokens on a valid envelope (first batch only): byte mutations of a token die in
+	// the ASN.1 / CMS parser; the code that interprets TSTInfo is reached only by tokens that parse and verify
+	if batch == 0 {
+		tsa := &lib.TSA{Key: tsaLeaf.Key, Chain: tsaLeaf.Chain()}
+		for _, f := range lib.Formats {
+			raw := valid[f]
+			sigv, alg := lib.SigValue(f, raw)
+			other := crypto.SHA512
+			if alg.Hash() == crypto.SHA512 {
+				other = crypto.SHA256
+			}
+			specs := map[string]lib.TokenSpec{
+				"no-certificates":         {Message: sigv, Hash: alg.Hash(), GenTime: time.Now().Add(-time.Hour), AccuracyS: 1, OmitCerts: true},
+				"negative-accuracy":       {Message: sigv, Hash: alg.Hash(), GenTime: time.Now().Add(-time.Hour), AccuracyS: -5},
+				"huge-accuracy":           {Message: sigv, Hash: alg.Hash(), GenTime: time.Now().Add(-time.Hour), AccuracyS: 1 << 40},
+				"gen-time-year-9999":      {Message: sigv, Hash: alg.Hash(), GenTime: time.Date(9999, 12, 31, 23, 59, 59, 0, time.UTC), AccuracyS: 1},
+				"gen-time-year-1":         {Message: sigv, Hash: alg.Hash(), GenTime: time.Date(1, 1, 1, 0, 0, 0, 0, time.UTC), AccuracyS: 1},
+				"gen-time-1950":           {Message: sigv, Hash: alg.Hash(), GenTime: time.Date(1950, 1, 1, 0, 0, 0, 0, time.UTC), AccuracyS: 1},
+				"other-hash-algorithm":    {Message: sigv, Hash: other, GenTime: time.Now().Add(-time.Hour), AccuracyS: 1},
+				"imprint-of-wrong-length": {Hash: alg.Hash(), Hashed: []byte{1, 2, 3}, GenTime: time.Now().Add(-time.Hour), AccuracyS: 1},
+				"empty-imprint":           {Hash: alg.Hash(), Hashed: []byte{}, GenTime: time.Now().Add(-time.Hour), AccuracyS: 1},
+				"huge-nonce":              {Message: sigv, Hash: alg.Hash(), GenTime: time.Now().Add(-time.Hour), AccuracyS: 1, Nonce: new(big.Int).Lsh(big.NewInt(1), 4096)},
+				"negative-nonce":          {Message: sigv, Hash: alg.Hash(), GenTime: time.Now().Add(-time.Hour), AccuracyS: 1, Nonce: big.NewInt(-1)},
+			}
+			names := make([]string, 0, len(specs))
+			for k := range specs {
+				names = append(names, k)
+			}
+			sortStrings(names)
+			for _, name := range names {
+				var in []byte
+				func() {
+					defer func() {
+						if recover() != nil {
+							in = nil // the test TSA cannot encode this shape
+						}
+					}()
+					in = lib.AttachToken(f, raw, tsa.Token(specs[name]))
+				}()
+				if in == nil {
+					res.Events["token-shape:not-encodable"]++
+					continue
+				}
+				for _, level := range []string{"strict", "permissive", "audit"} {
+					for _, vt := range []trustpolicy.TimestampOption{"", "always", "afterCertExpiry"} {
+						cid := fmt.Sprintf("token %s %s %s vt=%q", name, f, level, vt)
+						run("well-formed unusual timestamp tokens", cid, in, func() {
+							doc := lib.OCIPolicy(trustpolicy.SignatureVerification{VerificationLevel: level, VerifyTimestamp: vt}, []string{"ca:x", "tsa:t"}, []string{"*"})
+							mts := lib.NewMemTS().Put("ca:x", good.Root().Cert).Put("tsa:t", tsaRoot.Cert)
+							v, err := verifier.NewVerifierWithOptions(mts, verifier.VerifierOptions{OCITrustPolicy: doc, RevocationCodeSigningValidator: lib.OKRev{}, RevocationTimestampingValidator: lib.OKRev{}})
+							if err != nil {
+								panic("harness bug: " + err.Error())
+							}
+							out, verr := v.Verify(ctx, desc, in, notation.VerifierVerifyOptions{ArtifactReference: "r.io/a@" + desc.Digest.String(), SignatureMediaType: f})
+							checkPair("well-formed unusual timestamp tokens", cid, out, verr, true, in)
+						})
+						res.Events["token-shape:verified"]++
+					}
 				}
 			}
 		}
